@@ -376,8 +376,9 @@ def check_property(prop, tier, seed):
         discharged -= len(thm)
     discharged -= sum(1 for m in cfg.get("agree", []) if not current.get(m, False))
     bad_suites = set()
-    for (suite, *_rest) in concrete:
-        bad_suites.add(suite)
+    for (suite, name, c, s_, case, detail) in concrete:
+        if not any(finding_matches(f, prop, name, case) for f in findings):
+            bad_suites.add(suite)
     if any(k == "correspondence" for k, _, _ in problems):
         bad_suites |= set(cfg["suites"])
     discharged -= len(bad_suites)
@@ -415,6 +416,7 @@ def check_property(prop, tier, seed):
         wall_s=round(time.time() - t_start, 1),
         violations=violations,
     )
+    ev["coverage"]["known_findings_reported"] = [l for l in lines if l.startswith("KNOWN-FINDING")]
     os.makedirs(os.path.join(ROOT, "evidence"), exist_ok=True)
     json.dump(ev, open(os.path.join(ROOT, "evidence", prop + ".json"), "w"), indent=1)
     for l in lines:
